@@ -71,7 +71,10 @@ def showState (r : Raw) : String := csv (unitsConsumed r) ++ " " ++ csv (unitPri
 * `units <size> <base> <authCU> <keyRead> <valRead> <keyAlloc> <valAlloc> <keyWrite> <valWrite>
    <nActions> (<actionCU> <nKeys> <key hex>*)* <nSponsorKeys> <key hex>*`
    → `ok <size,compute,reads,allocates,writes>` | `overflow` | `badkey`
-* `blk exec|build <max×5> <target×5> <base keyRead valRead keyAlloc valAlloc keyWrite valWrite> <nTx>
+* `units2 <size> <authCU> <rules A ×7> <rules B ×7> <nActions> … <nSponsorKeys> …` → `<result under A> | <result under B>`
+   (the same transaction object metered twice)
+* `blk exec|build <max×5> <target×5> <base keyRead valRead keyAlloc valAlloc keyWrite valWrite>
+   <sponsor balance×3 (build lines only; not part of the metering model)> <nTx>
    (<size> <authCU> <nActions> (<actionCU> <nKeys> <key>*)* <nSponsorKeys> <key>*)*`
    → exec: `ok <consumed csv>` | `err-units <dim>` | `err-overflow` | `err-badkey` (what
    `Processor.Execute` does with the block on a manager fresh from `ComputeNext`);
@@ -97,10 +100,33 @@ def step (st : Raw) (ws : List String) : Raw × String :=
         | _ => (st, "bad-op")
       | none => (st, "bad-op")
     | _, _ => (st, "bad-op")
+  | "units2" :: size :: auth :: args =>
+    -- the same transaction metered under two rule sets, one after the other
+    match allSome ((size :: auth :: args.take 14).map parseU64), (args.drop 14) with
+    | some [size, auth, b1, kr1, vr1, ka1, va1, kw1, vw1, b2, kr2, vr2, ka2, va2, kw2, vw2], nA :: rest =>
+      match nA.toNat? with
+      | some nA =>
+        match takeActions nA rest with
+        | some (acts, rest') =>
+          match takeKeys rest' with
+          | some (sk, []) =>
+            let show1 (rules : UnitRules) : String :=
+              match units size rules (acts.map (·.1)) auth (acts.map (·.2)) sk with
+              | .ok d => "ok " ++ csv d
+              | .error .overflow => "overflow"
+              | .error .badKey => "badkey"
+            (st, show1 { baseCompute := b1, keyRead := kr1, valRead := vr1, keyAlloc := ka1, valAlloc := va1,
+                         keyWrite := kw1, valWrite := vw1 } ++ " | " ++
+                 show1 { baseCompute := b2, keyRead := kr2, valRead := vr2, keyAlloc := ka2, valAlloc := va2,
+                         keyWrite := kw2, valWrite := vw2 })
+          | _ => (st, "bad-op")
+        | none => (st, "bad-op")
+      | none => (st, "bad-op")
+    | _, _ => (st, "bad-op")
   | "blk" :: mode :: args =>
-    -- <max×5> <target×5> <base keyRead valRead keyAlloc valAlloc keyWrite valWrite> <nTx> <tx>*
-    match allSome ((args.take 17).map parseU64), (args.drop 17) with
-    | some [m0, m1, m2, m3, m4, _, _, _, _, _, base, kr, vr, ka, va, kw, vw], nT :: rest =>
+    -- <max×5> <target×5> <base keyRead valRead keyAlloc valAlloc keyWrite valWrite> <sponsor balance×3> <nTx> <tx>*
+    match allSome ((args.take 20).map parseU64), (args.drop 20) with
+    | some [m0, m1, m2, m3, m4, _, _, _, _, _, base, kr, vr, ka, va, kw, vw, _, _, _], nT :: rest =>
       match nT.toNat? with
       | some nT =>
         match takeTxs nT rest with
